@@ -78,6 +78,7 @@ type Property struct {
 	DesignRef string
 	Run       func(c *CheckCtx)
 	Explain   string
+	ReplayOracle func(o *Obligation) string
 }
 
 var properties = map[string]*Property{}
